@@ -33,6 +33,7 @@ from calmjs.parse.handlers.core import (
     layout_handler_closebrace,
     layout_handler_semicolon,
     layout_handler_semicolon_optional,
+    layout_handler_semicolon_openbrace,
 
     layout_handler_space_imply,
     layout_handler_space_optional_pretty,
@@ -107,6 +108,11 @@ def minify(drop_semi=True):
 
             # this rule rely on the normalized resolution
             (EndStatement, CloseBlock): layout_handler_closebrace,
+
+            # likewise, but the semicolon before a block statement is
+            # never optional (even when the block produces no text for
+            # the handler above to see).
+            (EndStatement, OpenBlock): layout_handler_semicolon_openbrace,
 
             # this is a fallback rule for when Dedent is defined by
             # some other rule, which won't neuter all optional
